@@ -156,7 +156,8 @@ Definition chk_payload_s (g : list node_t) : bool :=
 Definition payload_ok (idf colf : dna -> N) (g : list node_t) : Prop :=
   forall n, In n g ->
     Permutation (nd_ids n) (map idf (node_kmers K stranded n)) /\
-    (mode <> 0 -> forall k, In k (node_kmers K stranded n) -> colf k = nd_colour n).
+    (mode <> 0 -> forall k, In k (node_kmers K stranded n) -> colf k = nd_colour n) /\
+    (mode = 0 -> exists k, In k (node_kmers K stranded n) /\ colf k = nd_colour n).
 (* the nodes of g are exactly the maximal unbranched paths of g's own link set *)
 Definition unitig_graph (colf : dna -> N) (g : list node_t) : Prop :=
   (1 <= K)%nat /\ Forall (node_wf K) g /\
